@@ -135,6 +135,9 @@ class Session:
                     if not assume_safety:
                         for k, s in enumerate(p.ctx.safety):
                             self._add(name, fn, "safety", p, "%s#%d[pruned path]" % (s["kind"], k), p.ctx.hyps(s["pc"]), s["cond"], shape, spec=s.get("spec", False))
+                    for o in p.ctx.obligations:
+                        if o["kind"] not in ("must-fail",):
+                            self._add(name, fn, o["kind"], p, o["name"] + "[pruned path]", p.ctx.hyps(o["pc"]), o["cond"], shape)
                     continue
                 paths += 1
                 ctx = p.ctx
